@@ -791,6 +791,13 @@ fn same_name_requests(repeated_first: bool, arity3: bool) -> Result<(), String> 
         };
         let mut repeated = |reg: &mut StateRegistry| -> Result<(), String> {
             let granted = if arity3 { reg.try_get_multiple_mut::<(A, M0, A)>().is_ok() } else { reg.try_get_multiple_mut::<(A, A)>().is_ok() };
+            // the same request through the public trait method the registry methods are built on
+            let granted = granted
+                || if arity3 {
+                    <(A, M0, A) as mahf::state::registry::MultiStateTuple>::try_get_mut(reg).is_ok()
+                } else {
+                    <(A, A) as mahf::state::registry::MultiStateTuple>::try_get_mut(reg).is_ok()
+                };
             if granted {
                 Err("a tuple that repeats a state type was granted (two mutable references to one object)".into())
             } else {
